@@ -87,15 +87,30 @@ fn std_fields() -> Vec<(u8, Vec<u8>, bool)> {
     vec![(0, enc(&v_u32(1)), false), (1, enc(&v_u32(2)), false), (2, enc(&v_u32(3)), false)]
 }
 
+const NREFS: u8 = 5;
+
+/// References every frame imports first (slots 0..NREFS): Q's component, the resource, P's
+/// component, and both puppet packages (nested scripts name them, and a frame can only pass on
+/// references it can see itself).
+fn std_refs(w: &World) -> Vec<V> {
+    let e = w.ext::<Ext>();
+    vec![
+        v_ref_lit(e.gq.into_node_id()),
+        v_ref_lit(w.fungibles[0].address.into_node_id()),
+        v_ref_lit(e.gp.into_node_id()),
+        v_ref_lit(w.puppet_q.into_node_id()),
+        v_ref_lit(w.puppet_p.into_node_id()),
+    ]
+}
+
 fn prelude(b: &mut B, w: &World, carry: &[u8]) -> Vec<u8> {
     // in a nested script: references are literal, carried owned nodes are placeholders of the caller
-    let e = w.ext::<Ext>();
-    let mut vals = vec![v_ref_lit(e.gq.into_node_id()), v_ref_lit(w.fungibles[0].address.into_node_id()), v_ref_lit(e.gp.into_node_id())];
+    let mut vals = std_refs(w);
     for c in carry {
         vals.push(v_own(*c));
     }
-    let first = b.op(Op::Import(v_tuple(vals)), 3 + carry.len() as u8);
-    (0..carry.len() as u8).map(|i| first + 3 + i).collect()
+    let first = b.op(Op::Import(v_tuple(vals)), NREFS + carry.len() as u8);
+    (0..carry.len() as u8).map(|i| first + NREFS + i).collect()
 }
 
 fn ret_own0() -> Op {
@@ -334,13 +349,13 @@ fn gen_scenario(g: &mut Gen) -> Scenario {
             (None, Action::NewObject(names[g.index(names.len())].to_string()))
         }
         6 => {
-            let state = [0u32, 1, 2, 8, u32::MAX][g.index(5)];
+            let state = [0u32, 0, 1, 1, 2, u32::MAX][g.index(6)];
             let field = [0u8, 1, 2, 3, 255][g.index(5)];
             let flags = [0u32, 1, 1, 2, 4, 3][g.index(6)];
             (None, Action::ActorField { state, field, flags })
         }
         7 => {
-            let state = [0u32, 1, 2, u32::MAX][g.index(4)];
+            let state = [0u32, 0, 1, 1, 2, u32::MAX][g.index(6)];
             let collection = [0u8, 1, 2, 3][g.index(4)];
             if g.bool() {
                 (None, Action::ActorKv { state, collection, flags: [0u32, 1, 2][g.index(3)] })
@@ -455,7 +470,7 @@ fn wrap(w: &World, actor: Actor, build_acting: &dyn Fn(&mut B, Option<u8>), tx_r
     };
     // top-level script
     let mut top = B::new();
-    let mut vals = vec![v_ref_lit(e.gq.into_node_id()), v_ref_lit(w.fungibles[0].address.into_node_id()), v_ref_lit(e.gp.into_node_id())];
+    let mut vals = std_refs(w);
     if tx_reservation.is_some() {
         vals.push(v_own_lit(marker(2, 0)));
     }
@@ -467,14 +482,14 @@ fn wrap(w: &World, actor: Actor, build_acting: &dyn Fn(&mut B, Option<u8>), tx_r
             let mut b = B::new();
             let n = vals.len() as u8;
             b.op(Op::Import(v_tuple(vals)), n);
-            build_acting(&mut b, if tx_reservation.is_some() { Some(3) } else { None });
+            build_acting(&mut b, if tx_reservation.is_some() { Some(NREFS) } else { None });
             top_script = b.script();
             call_on_gp = actor == Actor::GlobalMethod;
         }
         Actor::OwnedMethod | Actor::InnerMethod => {
             let n = vals.len() as u8;
             top.op(Op::Import(v_tuple(vals)), n);
-            let carry = if tx_reservation.is_some() { Some(3u8) } else { None };
+            let carry = if tx_reservation.is_some() { Some(NREFS) } else { None };
             let o = if actor == Actor::OwnedMethod {
                 top.op(Op::NewObject { blueprint: PUPPET_BLUEPRINT.into(), fields: std_fields(), kv: vec![] }, 1)
             } else {
@@ -565,8 +580,8 @@ fn case(g: &mut Gen) -> Outcome {
             let mut pb = B::new();
             prelude(&mut pb, w, &[]);
             opening(&mut pb);
-            pb.op(Op::FieldClose(3), 1);
-            pb.op(Op::KvClose(4), 1);
+            pb.op(Op::FieldClose(NREFS), 1);
+            pb.op(Op::KvClose(NREFS + 1), 1);
             let probe = w.run(puppet_method_manifest(e.gp, PUPPET_ACT, &pb.script()), vec![]);
             let handles: Vec<u32> = match probe.commit().map(|c| &c.outcome) {
                 Some(TransactionOutcome::Success(outs)) => outs
